@@ -18,7 +18,10 @@
 
 #include <atomic>
 #include <chrono>
+#include <cstdio>
+#include <cstdlib>
 #include <map>
+#include <unistd.h>
 #include <memory>
 #include <string>
 #include <thread>
@@ -67,6 +70,18 @@ inline void pauseSel(std::int64_t v)
 inline const char *pauseName(std::int64_t v)
 {
   return v < 500 ? "" : v < 650 ? "y" : v < 850 ? "s" : "z";
+}
+
+/// diagnostic only (never set by the driver): keep the process alive and untouched when a stall is
+/// detected, so that a debugger can be attached to see where the parked threads are
+inline void freezeIfAsked(const char *what)
+{
+  if (const char *f = std::getenv("C10_FREEZE_ON_STALL"))
+  {
+    std::fprintf(stderr, "C10-FREEZE pid=%d %s (%s)\n", static_cast<int>(::getpid()), what, f);
+    std::fflush(stderr);
+    for (;;) ::pause();
+  }
 }
 
 /// wait until pred() or the bound expires; polls politely (the waiting thread must not
@@ -466,6 +481,7 @@ inline void bqConc(pbt::Src &src, pbt::Case &c, bool small)
       std::string w = whoIsStuck(provable, false);
       // re-check progress once more after reading the state (a thread may just have moved on)
       if (opsSum() != now || allDone()) continue;
+      if (provable) freezeIfAsked(w.c_str());
       if (provable)
         c.failTimed("C10/bq/parked-while-condition-holds",
                     "no operation completed for " + std::to_string(kBoundSeconds) +
